@@ -280,7 +280,12 @@ pub fn run(tier: Tier, seed: u64) -> i32 {
 
     // (4) the client's own A relative to the announced modulus
     let mods = moduli();
-    let b_pub = PublicKey::from_le_bytes(le32_from_u64(1234567)).unwrap_or_else(|_| mc::util::machinery_error("C04: probe B refused"));
+    // a server key for the client to talk to; it is a valid key, so a refusal is a finding, not a harness problem
+    let probe = [le32_from_u64(1234567), refmodel::ctr_array::<32>(seed, "c04-probe-B").map(|b| b & 0x7F), [0x11; 32]];
+    let b_pub = match probe.iter().find_map(|k| { check_key(&report, k, "probe-B"); PublicKey::from_le_bytes(*k).ok() }) {
+        Some(k) => k,
+        None => return report.finish(),
+    };
     let a_alpha: Vec<[u8; 32]> = vec![le32_from_u64(1), le32_from_u64(2), le32_from_u64(5), le32_from_u64(250), refmodel::ctr_array::<32>(seed, "c04-a")];
     let own_a = AtomicU64::new(0);
     let own_a_zero = AtomicU64::new(0);
@@ -336,6 +341,50 @@ pub fn run(tier: Tier, seed: u64) -> i32 {
             }
         }
     });
+    // constructed: A equals the BUILT-IN N exactly under a larger announced modulus (valid there: A mod N' != 0)
+    let gw_path = mc::report::verif_root().join("witnesses").join("group_witnesses.json");
+    let gw: serde_json::Value = std::fs::read_to_string(&gw_path).ok().and_then(|t| serde_json::from_str(&t).ok()).unwrap_or_else(|| mc::util::machinery_error("cannot read witnesses/group_witnesses.json"));
+    let mut gw_cases = 0u64;
+    for w in gw.as_array().unwrap_or(&vec![]) {
+        let g = w["g"].as_u64().unwrap() as u8;
+        let a_exp = w["a"].as_u64().unwrap();
+        let m_le = mc::util::unhex_n::<32>(w["modulus_le"].as_str().unwrap());
+        let m = U::from_le_bytes(&m_le);
+        // re-validate the witness with the reference model (machinery error if it no longer witnesses)
+        if U::from_u64(g as u64).modpow(&U::from_u64(a_exp), &m) != n || m.cmp(&n) != std::cmp::Ordering::Greater {
+            mc::util::machinery_error("group witness does not satisfy g^a mod N' = built-in N with N' > N");
+        }
+        let a = le32_from_u64(a_exp);
+        let (r, _, _) = with_script(&a, || {
+            let c = SrpClientChallenge::new(ns("A"), ns("A"), g, m_le, b_pub, [7u8; 32]);
+            *c.client_public_key()
+        });
+        gw_cases += 1;
+        match r {
+            Ok(apub) => {
+                if apub != N_LE {
+                    report.violation(Violation { signature: "C04|client-own-A|wrong-value".into(), scenario: "SrpClientChallenge::new".into(), replay: json!({"g": g, "a": a_exp, "modulus_le": hex(&m_le)}), detail: json!({"message": format!("A = {} but g^a mod N' = built-in N", hex(&apub))}) });
+                } else {
+                    accepted.fetch_add(1, Ordering::Relaxed);
+                }
+            }
+            Err(msg) => {
+                if msg.contains("nvalid public key") {
+                    report.violation(Violation {
+                        signature: "C04|client-own-A|valid-key-refused-relative-to-builtin-N".into(),
+                        scenario: "SrpClientChallenge::new".into(),
+                        replay: json!({"g": g, "a": a_exp, "modulus_le": hex(&m_le)}),
+                        detail: json!({"message": format!("under the announced modulus N' > N the client's key A = g^a mod N' equals the built-in N, which is NOT congruent 0 mod N', yet the client refused it: {msg}")}),
+                    });
+                } else {
+                    inconclusive.fetch_add(1, Ordering::Relaxed);
+                }
+            }
+        }
+    }
+    report.require("client_own_key_equals_builtin_N_cases");
+    report.count("client_own_key_equals_builtin_N_cases", gw_cases);
+    evals.fetch_add(gw_cases, Ordering::Relaxed);
     report.count("client_own_key_cases", own_a.load(Ordering::Relaxed));
     report.require("client_own_key_zero_refused");
     report.count("client_own_key_zero_refused", own_a_zero.load(Ordering::Relaxed));
